@@ -126,6 +126,9 @@ class ExpectWorld:
             canc = None
             if sp['cancel'] is not None:
                 canc = asyncio.ensure_future(self.canceller(tasks, sp['cancel']))
+            stopper = None
+            if sp.get('stop_clear') is not None:
+                stopper = asyncio.ensure_future(self.stopper(sp['stop_clear']))
             for k, (typ, v) in enumerate(sp['stream']):
                 if k == 1:
                     for i in late:
@@ -134,8 +137,11 @@ class ExpectWorld:
                 nm = f'e{k}'
                 e = (T1 if typ == 'T1' else T2)(v=v, name=nm)
                 self.events[nm] = e
-                bus.dispatch(e)
-                self.rec('dispatched', nm)
+                try:
+                    bus.dispatch(e)
+                    self.rec('dispatched', nm)
+                except Exception as ex:  # noqa: BLE001  (the bus was stopped by the stopper actor)
+                    self.rec('dispatch-refused', nm, type(ex).__name__)
             if len(sp['stream']) <= 1:
                 for i in late:
                     tasks.append((i, asyncio.ensure_future(self.call(i, MENU[sp['calls'][i]]))))
@@ -144,6 +150,8 @@ class ExpectWorld:
             await self.loop.hsleep(1.0)
             if canc is not None and not canc.done():
                 canc.cancel()
+            if stopper is not None and not stopper.done():
+                stopper.cancel()
             for i, t in tasks:
                 if not t.done():
                     self.rec('cancel', i, 'final')
@@ -156,6 +164,13 @@ class ExpectWorld:
             await self.loop.hsleep(0.3)
             self.phase = 'final'
             self.rec('final', self.table())
+
+    async def stopper(self, k):
+        for _ in range(k):
+            await self.loop.pause('stopper')
+        self.rec('stop-clear-begin')
+        await self.bus.stop(clear=True)
+        self.rec('stop-clear-end', self.table())
 
     async def canceller(self, tasks, k):
         for _ in range(k):
@@ -206,6 +221,10 @@ def families(tier):
                     continue
                 sid = f'{"".join(t[1] + str(v) for t, v in stream)}-c{"_".join(map(str, calls))}-s{"".join(map(str, start))}-x{cancel}'
                 out.append(dict(prop='C18', family='c18.expect', id='c18/' + sid, cfg=cfg, x=dict(stream=list(stream), calls=list(calls), start=list(start), cancel=cancel)))
+                if len(stream) <= 2 and cancel in (None, 1) and (deep or (len(calls) == 1 and calls[0] in (0, 1, 4, 5) and start[0] == 0)):
+                    for k in ((0, 1, 2) if deep else (1,)):
+                        out.append(dict(prop='C18', family='c18.expect_bus_stopped_and_cleared', id=f'c18/stopclear{k}-' + sid, cfg=cfg,
+                                        x=dict(stream=list(stream), calls=list(calls), start=list(start), cancel=cancel, stop_clear=k)))
                 if len(stream) <= 2 and (deep or (len(calls) == 1 and calls[0] in (0, 1, 2, 4) and start[0] == 0)) and any(t == 'T1' for t, _ in stream):
                     out.append(dict(prop='C18', family='c18.expect_slow_handler', id='c18/slow-' + sid, cfg=cfg,
                                     x=dict(stream=list(stream), calls=list(calls), start=list(start), cancel=cancel, slow=True)))
@@ -258,7 +277,14 @@ def oracle(spec, res):
         return out
     table0 = next(r[3] for r in log if r[2] == 'table0')
     final = next((r for r in log if r[2] == 'final'), None)
-    if final is not None and final[3] != table0:
+    stop_seq = next((r[0] for r in log if r[2] == 'stop-clear-begin'), None)
+    if stop_seq is not None and not any(r[2] == 'stop-clear-end' and r[3] == () for r in log):
+        stop_seq = None  # stop() on a bus that was never started is a no-op (nothing was cleared): the ordinary clauses apply
+    if stop_seq is not None:
+        # stop(clear=True) empties the handler table on purpose: after it every pending call can only time out or be cancelled, with exactly those exceptions
+        if final is not None and sum(n for _, n in final[3]) != 0:
+            out.append(V('subscription_not_removed', f'handlers left after stop(clear=True) and the end of every call: {final[3]}'))
+    if stop_seq is None and final is not None and final[3] != table0:
         out.append(V('subscription_not_removed', f'handler table at the end {final[3]} != before {table0}'))
     begins = {r[3]: r for r in log if r[2] == 'expect-begin'}
     ends = {r[3]: r for r in log if r[2] == 'expect-end'}
@@ -306,11 +332,13 @@ def oracle(spec, res):
         # its temporary subscription is gone when the call ends: table = table0 + one per call still pending
         pending = sum(1 for j, bj in begins.items() if j != i and bj[0] < e[0] and (j not in ends or ends[j][0] > e[0]))
         n0, n1 = sum(n for _, n in table0), sum(n for _, n in e[6])
-        if n1 != n0 + pending:
+        if n1 != n0 + pending and (stop_seq is None or e[0] < stop_seq):
             out.append(V('subscription_not_removed', f'call {i} ended {kind}: {n1} handlers registered, expected {n0} + {pending} pending calls', **tagd))
     # other handlers unaffected: the probe ran exactly once per dispatched event, all events complete
-    disp = [r[3] for r in log if r[2] == 'dispatched']
+    disp = [r[3] for r in log if r[2] == 'dispatched' and (stop_seq is None or r[0] < stop_seq)]
     for nm in disp:
+        if stop_seq is not None and not any(r[2] == 'processed' and r[3] == nm and r[0] < stop_seq for r in log):
+            continue  # still queued when the bus was stopped: never processed, by design
         n = sum(1 for r in log if r[2] == 'processed' and r[3] == nm)
         if n != 1:
             out.append(V('other_handlers_affected', f'probe ran {n} times for {nm}'))
